@@ -37,6 +37,7 @@ def run_program(prog, flavours=("sync",), model=None, link_to=False, compare_tre
                 continue
             if op["op"] == "cmptree":
                 r = compare_trees(m, cache, ext, times)
+                m.cmd("list")          # keep the model's op counter (default timestamps) aligned with the program index
                 steps.append((op, None, None, r, None))
                 if r is not None:
                     ok = False; tree_reason = r
